@@ -145,3 +145,82 @@ Definition dict_src (H : hooks) (p : path) (base : list (pystr * json)) (B : bui
 
 (* the use-X strategy strings *)
 Definition use_strategy (side : pystr) : pystr := use_ side.
+
+(* ---------- strategies.adjust_patch_level / collect_diffs / the clear-all arm of resolve_conflicted_decisions_list ----------
+   Python lists and None: a diff argument is [option diff]; `list.extend(None)` raises TypeError; `for d in None` too. *)
+Definition adjust_patch_level (v : apl_variant) (target common : path) (d : option diff) : res (option diff) :=
+  let n := List.length target in
+  if negb (path_eqb (firstn n common) target) then Err AssertionError else
+  match v with
+  | APLPinned =>
+      (* `if n == len(target_path): return diff` -- always taken *)
+      Ok d
+  | APLFixed =>
+      match d with
+      | None | Some [] => Ok (Some [])
+      | Some es =>
+          if Nat.eqb n (List.length common) then Ok d
+          else Ok (Some (map (fun e => fold_left (fun nd k => DPatch k [nd]) (rev (skipn n common)) e) es))
+      end
+  end.
+
+Definition extend (acc : diff) (d : option diff) : res diff :=
+  match d with Some x => Ok (acc ++ x) | None => Err TypeError end.
+
+Fixpoint collect_diffs_go (v : apl_variant) (p : path) (B : builder) (accl accr : diff) : res (diff * diff) :=
+  match B with
+  | [] => Ok (accl, accr)
+  | d :: rest =>
+      do ld <- adjust_patch_level v p (d_path d) (d_local d);
+      do rd <- adjust_patch_level v p (d_path d) (d_remote d);
+      do accl' <- extend accl ld;
+      do accr' <- extend accr rd;
+      collect_diffs_go v p rest accl' accr'
+  end.
+
+Definition bdepth (B : builder) : nat :=
+  fold_right (fun d acc => Nat.max (Nat.max (odepth (d_local d)) (odepth (d_remote d)) + List.length (d_path d)) acc) 0 B.
+
+Definition collect_diffs (v : apl_variant) (p : path) (B : builder) : res (diff * diff) :=
+  do lr <- collect_diffs_go v p B [] [];
+  let fuel := S (S (bdepth B)) + List.length B in
+  do l <- combine_patches fuel (fst lr);
+  do r <- combine_patches fuel (snd lr);
+  Ok (l, r).
+
+(* elif strategy == "clear-all": ... decisions.custom(path, local_diff, remote_diff, [op_removerange(0, len(base))], strategy=strategy) *)
+Definition clear_all_arm (v : apl_variant) (p : path) (base : list json) (B : builder) : res builder :=
+  do lr <- collect_diffs v p B;
+  Ok (b_custom [] p (Some (fst lr)) (Some (snd lr)) (Some [DRemoveRange (KI 0) (List.length base)]) false
+               (Some (of_ascii "clear-all"))).
+
+(* ---------- executable comparison used by the clear-all correspondence (harness/c03_common.py) ---------- *)
+Definition odiff_eqb (a b : option diff) : bool :=
+  match a, b with Some x, Some y => diff_eqb x y | None, None => true | _, _ => false end.
+
+Definition decision_eqb (a b : decision) : bool :=
+  path_eqb (d_path a) (d_path b) && str_eqb (action_name (d_action a)) (action_name (d_action b))
+  && Bool.eqb (d_conflict a) (d_conflict b) && odiff_eqb (d_local a) (d_local b) && odiff_eqb (d_remote a) (d_remote b)
+  && odiff_eqb (d_custom a) (d_custom b) && opt_str_eqb (d_strategy a) (d_strategy b).
+
+Fixpoint builder_eqb (a b : builder) : bool :=
+  match a, b with
+  | [], [] => true
+  | x :: a', y :: b' => decision_eqb x y && builder_eqb a' b'
+  | _, _ => false
+  end.
+
+(* observed outcome of the real arm: exception class name, or the decisions afterwards *)
+Definition clear_all_agrees (p : path) (base : list json) (B : builder) (obs : pystr + builder) : bool :=
+  match clear_all_arm adjust_patch_level_variant p base B, obs with
+  | Err e, inl name => str_eqb (err_name e) name
+  | Ok B', inr Bobs => builder_eqb B' Bobs
+  | _, _ => false
+  end.
+
+Fixpoint clear_all_mismatches (i : nat) (cases : list (path * list json * builder * (pystr + builder))) : list nat :=
+  match cases with
+  | [] => []
+  | (p, base, B, obs) :: rest =>
+      (if clear_all_agrees p base B obs then [] else [i]) ++ clear_all_mismatches (S i) rest
+  end.
